@@ -393,6 +393,9 @@ func rulesC05(e *Engine, r *Report) {
 			r.Check(okb, "R05.11", "stage.(*Stage).Recover: cache refilled from (oldest - cacheAgeLogged)", e.Pos(top.Pos()), "the refill after recovery does not start a day before the oldest companion", 1)
 		}
 	}
+	// ---------------------------------------------------------------- R05.12
+	r.Rule("R05.12", "one version, one record: the record that finalize() logs and delivers is the one the cache holds (the version validated last) - a newer version of a parked file replaces the parked record, and a stale record is dropped - so that the receive log, which duplicate suppression falls back on after a restart, carries the hash of the bytes that were delivered")
+	e.checkCurrentVersionFinalized(r, "R05.12")
 }
 
 func nameOr(m map[string]string, k string) string {
@@ -537,4 +540,38 @@ func (e *Engine) checkRefillKeepsLive(r *Report, rule string) {
 			"log records are cached under a key other than the staged path: "+k, 1, k)
 	})
 	r.Min(rule, "cache inserts in the log refill", n, 1)
+}
+
+// checkCurrentVersionFinalized: what is logged and delivered is the version
+// the cache holds.  A newer version of a parked file replaces the parked
+// record (toWait), and finalize() goes on only with the very record that is
+// in the cache - a stale record of an older version (parked under another
+// predecessor, or re-queued by an old timer) is dropped (F24).  Shared by
+// R05.12 and R18.7.
+func (e *Engine) checkCurrentVersionFinalized(r *Report, rule string) {
+	if fn := needFn(e, r, rule, "stage.(*Stage).toWait"); fn != nil {
+		slot := "p0.wait[p1]#0[§]"
+		cls := labeler(
+			C("("+slot+".path == p2.path)", "samePath"), C("(p2.path == "+slot+".path)", "samePath"),
+			C("("+slot+" == p2)", "sameRecord"), C("(p2 == "+slot+")", "sameRecord"),
+			I("store("+slot+" = p2)", "replaced"),
+		)
+		n := 0
+		for _, rw := range e.returnWorlds(r, rule, fn, cls) {
+			if !rw.W.Has("samePath") {
+				continue
+			}
+			n++
+			r.Check(rw.W.HasAny("replaced", "sameRecord"), rule, "stage.(*Stage).toWait: a record already parked for the same path is replaced by the new one "+rw.W.String(), e.InstrPos(rw.In),
+				"when a newer version of a parked file is parked, the OLD record (old hash, old predecessor) is kept: finalize later logs the old version's hash for the new version's bytes", 1, rw.W.String())
+		}
+		r.Min(rule, "returns of toWait on finding the path already parked", n, 1)
+	}
+	if fn := needFn(e, r, rule, "stage.(*Stage).finalize"); fn != nil {
+		cur := "call(stage.(*Stage).fromCache)(p0, p1.path)"
+		cls := labeler(C("("+cur+" == p1)", "current"), C("(p1 == "+cur+")", "current"))
+		n := e.Guarded(r, rule, "stage.(*Stage).finalize: only the record that is in the cache is logged and delivered", fn, e.instrMatch("call(stage.(*Stage).putFileAway)(p0, p1)"), cls,
+			func(l LabelSet) bool { return l.Has("current") }, "fromCache(file.path) == file")
+		r.Min(rule, "deliveries in finalize", n, 1)
+	}
 }
